@@ -105,7 +105,9 @@ ObsMem(m, e) ==
          [] e.api = "LeaveSource" ->
               IF <<g, s>> \in m.jsrc[p] THEN [m EXCEPT !.jsrc[p] = @ \ {<<g, s>>}] ELSE Murk(m, p, g)
          [] e.api = "Block" ->
-              IF md = "any" THEN [m EXCEPT !.blk[p] = @ \cup {<<g, s>>}] ELSE Murk(m, p, g)
+              \* (outside any-source mode the kernel refuses the call; a peer that reports success all the
+              \*  same has promised that the source is blocked, and is held to it)
+              [m EXCEPT !.blk[p] = @ \cup {<<g, s>>}]
          [] e.api = "Unblock" ->
               IF md = "any" THEN [m EXCEPT !.blk[p] = @ \ {<<g, s>>}] ELSE Murk(m, p, g)
          [] OTHER -> Fail(m, "C12/harness/unknown-membership-call")
@@ -114,7 +116,8 @@ ObsMem(m, e) ==
 Filter(m, p, g, s) ==
   LET md == Mode(m, p, g) IN
   IF md = "murky" THEN "maybe"
-  ELSE IF md = "any" THEN (IF <<g, s>> \in m.blk[p] THEN "no" ELSE "yes")
+  ELSE IF <<g, s>> \in m.blk[p] THEN "no"
+  ELSE IF md = "any" THEN "yes"
   ELSE IF <<g, s>> \in m.jsrc[p] THEN "yes"
   ELSE "no"
 
